@@ -115,7 +115,8 @@ class C09(Prop):
     ID = "C09"
     THEOREMS = ["C09_header_codec", "C09_zoom_directory_codec", "C09_summary_codec", "C09_section_codec", "C09_zoom_record_codec", "C09_zoom_section_codec", "C09_chrom_tree_codec", "C09_rtree_codec", "C09_buf_size", "C09_buf_size_multipass", "C09_model_uncompressed", "C09_decode_encode", "C09_decode_encode_multipass", "C09_decode_encode_compressed", "C09_decode_encode_compressed_multipass", "C09_decode_encode_lenient", "C09_records_are_input", "C09_ids_first_appearance", "C09_summary_is_folded", "C09_chrom_keys_refuted",
                 "C09_bb_block_codec", "C09_bb_decode_encode", "C09_bb_decode_encode_multipass", "C09_bb_decode_encode_lenient", "C09_bb_records_are_input", "C09_bb_outs_are_runs", "C09_bb_blocks", "C09_bb_summary_is_sweep", "C09_bb_level_is_records", "C09_bb_zoom_sections_sized", "C09_bb_summary_statistics", "C09_bb_level_statistics",
-                "C09_inflate_never_fuel", "C09_zlib_decode_res_total", "C09_inflate_step_consumes", "C09_adler32_closed_form", "C09_adler32_fits_u32", "C09_adler32_streaming", "C09_lz_copy_correct", "C09_length_codes_in_range", "C09_distance_codes_in_range", "C09_huffman_tree_decodes_canonical_code", "C09_huffman_canonical_code_prefix_free", "C09_stored_len_check_is_complement", "C09_zlib_decode_stored", "C09_zlib_store_one_block", "C09_decode_encode_zlib_stored", "C09_decode_encode_zlib_stored_multipass"]
+                "C09_inflate_never_fuel", "C09_zlib_decode_res_total", "C09_inflate_step_consumes", "C09_adler32_closed_form", "C09_adler32_fits_u32", "C09_adler32_streaming", "C09_lz_copy_correct", "C09_length_codes_in_range", "C09_distance_codes_in_range", "C09_huffman_tree_decodes_canonical_code", "C09_huffman_canonical_code_prefix_free", "C09_stored_len_check_is_complement", "C09_zlib_decode_stored", "C09_zlib_store_one_block", "C09_decode_encode_zlib_stored", "C09_decode_encode_zlib_stored_multipass",
+                "C09_bb_model_uncompressed", "C09_bb_decode_encode_compressed", "C09_bb_decode_encode_compressed_multipass", "C09_bb_decode_encode_compressed_lenient", "C09_bb_buf_size", "C09_bb_buf_size_multipass", "C09_bb_blocks_fit_of_bounds", "C09_bb_decode_encode_zlib_stored", "C09_bb_decode_encode_zlib_stored_multipass"]
     RULE = ("bbi cases (bigWig: bbigen.bw_case; bigBed: bedgen.bed_case): 1-6 chromosomes, layouts from the grammars, "
             "compress x items_per_slot{1,2,3,7,1024} x block_size{2,3,4,5,256} x zoom modes (automatic, manual incl. odd lists, none) x "
             "single/two pass; 'nice' cases use small dyadic values so that summary and zoom statistics are compared exactly; "
